@@ -24,7 +24,12 @@ B_ROWS = ["u", "u", "u", "v", "v", "v", "v"]
 NROWS = len(A_ROWS)
 
 
+INDEXES = {None: None, "default": None, "permuted": [3, 0, 6, 2, 5, 1, 4], "string": list("pqrstuv"), "nonunique": [1, 1, 0, 0, 2, 2, 1]}
+
+
 def cat_frame(index=None, a_rows=None, b_rows=None) -> pandas.DataFrame:
+    if isinstance(index, str):
+        index = INDEXES[index]
     return pandas.DataFrame(
         {
             "A": pandas.Categorical(a_rows or A_ROWS, categories=A_LEVELS),
